@@ -52,6 +52,7 @@ type Engine struct {
 	ghostVars map[*types.Var]bool
 	noEffectRe []*regexp.Regexp
 	argsOnlyRe []*regexp.Regexp // callees that may only write through their arguments
+	pureRe     []pureSpec        // callees that are deterministic functions of their arguments
 	lemmaPos map[*Lemma]*declInfo
 	typeTags map[string]int
 	mu       sync.Mutex
@@ -96,6 +97,19 @@ func (eng *Engine) loadNoEffect(path string) error {
 	for _, line := range strings.Split(string(data), "\n") {
 		line = strings.TrimSpace(line)
 		if line == "" || strings.HasPrefix(line, "#") {
+			continue
+		}
+		if strings.HasPrefix(line, "pure:") {
+			// pure:<name> <regex>
+			f := strings.Fields(strings.TrimPrefix(line, "pure:"))
+			if len(f) != 2 {
+				return fmt.Errorf("%s: malformed pure: line %q", path, line)
+			}
+			re, err := regexp.Compile(f[1])
+			if err != nil {
+				return fmt.Errorf("%s: %v", path, err)
+			}
+			eng.pureRe = append(eng.pureRe, pureSpec{name: f[0], re: re})
 			continue
 		}
 		argsOnly := false
@@ -429,6 +443,25 @@ func replaceIdent(s, id, repl string) string {
 		i++
 	}
 	return b.String()
+}
+
+type pureSpec struct {
+	name string
+	re   *regexp.Regexp
+}
+
+// pureName returns the uninterpreted-function name of a callee declared pure.
+func (eng *Engine) pureName(fn *types.Func) (string, bool) {
+	if fn == nil {
+		return "", false
+	}
+	full := fn.FullName()
+	for _, p := range eng.pureRe {
+		if p.re.MatchString(full) {
+			return p.name, true
+		}
+	}
+	return "", false
 }
 
 func (eng *Engine) argsOnly(fn *types.Func) bool {
